@@ -112,6 +112,9 @@ pub struct Case {
     /// never called
     #[serde(default)]
     pub default_params: bool,
+    /// the validators are registered before the staking parameters are configured
+    #[serde(default)]
+    pub validators_first: bool,
     pub ops: Vec<SOp>,
 }
 
@@ -1057,6 +1060,10 @@ pub fn build(case: &Case) -> Run {
                     0 => "ValoperA".to_string(),
                     1 => "valopera".to_string(),
                     2 => "VALOPERA".to_string(),
+                    // names that are proper prefixes of one another
+                    3 => "val1".to_string(),
+                    4 => "val10".to_string(),
+                    5 => "val100".to_string(),
                     _ => format!("Operator{}", i),
                 }
             } else {
@@ -1068,6 +1075,7 @@ pub fn build(case: &Case) -> Run {
     names.accounts = addrs.clone();
     names.ghosts = (0..4).map(|i| api.addr_make(&format!("ghost{}", i)).to_string()).collect();
     let default_params = case.default_params;
+    let validators_first = case.validators_first;
     let denom = if default_params { "TOKEN".to_string() } else { DENOMS[case.bonded as usize % DENOMS.len()].to_string() };
     let foreign_denom = if case.lookalike_foreign {
         // "TOKEN" -> "token", "ustake" -> "USTAKE", "atom" -> "ATOM"
@@ -1103,12 +1111,17 @@ pub fn build(case: &Case) -> Run {
             for a in addrs2.iter().take(nd) {
                 router.bank.inner.init_balance(storage, &Addr::unchecked(a.clone()), vec![coin(init, denom2.clone()), coin(1000, foreign2.clone())]).unwrap();
             }
-            if !default_params {
-                router
-                    .staking
-                    .inner
-                    .setup(storage, StakingInfo { bonded_denom: denom2.clone(), unbonding_time: unbonding, apr: Decimal::from_ratio(apr, 10_000u128) })
-                    .unwrap();
+            let configure = |router: &mut cw_multi_test::Router<RecBank, RecCustom, RecWasm, RecStaking, RecDistr, RecIbc, RecGov, RecStargate>, storage: &mut dyn cosmwasm_std::Storage| {
+                if !default_params {
+                    router
+                        .staking
+                        .inner
+                        .setup(storage, StakingInfo { bonded_denom: denom2.clone(), unbonding_time: unbonding, apr: Decimal::from_ratio(apr, 10_000u128) })
+                        .unwrap();
+                }
+            };
+            if !validators_first {
+                configure(router, storage);
             }
             let block = mock_env().block;
             for (i, v) in vals2.iter().enumerate() {
@@ -1117,6 +1130,9 @@ pub fn build(case: &Case) -> Run {
                     .inner
                     .add_validator(api, storage, &block, Validator::create(v.clone(), Decimal::from_ratio(comm2[i], 10_000u128), Decimal::from_ratio(maxc2[i], 10_000u128), Decimal::one()))
                     .unwrap();
+            }
+            if validators_first {
+                configure(router, storage);
             }
         });
     let mut balances = vec![init; nd];
@@ -1408,6 +1424,7 @@ impl Engine for StakeSim {
             plain_validators: rng.chance(1, 5),
             lookalike_foreign: rng.chance(1, 3),
             default_params: rng.chance(1, 8),
+            validators_first: rng.chance(1, 4),
             ops,
         }
     }
